@@ -380,6 +380,15 @@ class Emitter:
                 return '((%s)&%s)' % (self.ct(t), self.gname(name))
             want = self.ct(t)
             have = self.ct(('ptr', g.type))
+            # CBMC 6.11 mis-resolves `cond ? (struct T*)(&arr) : (struct T*)(arr+k)` (address of a WHOLE array cast to
+            # another pointer type); taking the address of the first scalar element instead is modelled correctly.
+            rt_ = self.resolve(g.type)
+            sub = ''
+            while rt_[0] == 'array' and rt_[1] > 0:
+                sub += '[0]'
+                rt_ = self.resolve(rt_[2])
+            if sub:
+                return '((%s)&%s%s)' % (want, self.gname(name), sub)
             if want == have:
                 return '(&%s)' % self.gname(name)
             return '((%s)&%s)' % (want, self.gname(name))
